@@ -139,6 +139,15 @@ _orig_wait_tstate = threading.Thread._wait_for_tstate_lock
 def _start(self):
     if S.active and S.current() is not None:
         self._sim = S.new_thread(self, "%s#%d" % (_thread_role(self), len(S.threads)))
+        try:
+            return _orig_start(self)
+        except RuntimeError as err:
+            if "can't start new thread" in str(err):
+                # the machine ran out of threads (many checks side by side): resource exhaustion is not
+                # modelled and must never turn into a verdict
+                S.harness_failure = str(err)
+                S.abort("os-thread-limit")
+            raise
     return _orig_start(self)
 
 
